@@ -34,16 +34,22 @@ func (r *Run) DrawUP4Conf() UP4Opts {
 
 // WaitUP4Ready runs until the agent has initialised the switch (interfaces installed).
 func (r *Run) WaitUP4Ready() bool {
+	// the interfaces INSERT is the last step of the start-up sequence; whether the
+	// switch took it is the image oracle's matter, not a condition for going on
 	want := fmt.Sprintf("INS:T%d", r.W.P4.ID(tIfaces))
 	ready := func() bool {
 		for _, w := range r.W.P4.WriteLog {
-			if w.Inc == r.Inc && w.Failed == "" && strings.Contains(w.Summary, want) {
+			if w.Inc == r.Inc && strings.Contains(w.Summary, want) {
 				return true
 			}
 		}
 		return false
 	}
-	return r.Sim.RunUntil(func() bool { return ready() || !r.AgentAlive() }, r.until(30*time.Second)) && r.AgentAlive() && ready()
+	ok := r.Sim.RunUntil(func() bool { return ready() || !r.AgentAlive() }, r.until(30*time.Second)) && r.AgentAlive() && ready()
+	if ok {
+		r.Sim.RunFor(20 * time.Millisecond)
+	}
+	return ok && r.AgentAlive()
 }
 
 func scenarioC04(r *Run) {
@@ -52,6 +58,11 @@ func scenarioC04(r *Run) {
 	r.Conf.EnableHBTimer = r.Ch.Choose(3, "hb") == 1
 	r.DrawStrategy()
 	r.W.P4.Faults.LatJit = []time.Duration{0, 50 * time.Microsecond, 400 * time.Microsecond}[r.Ch.Choose(3, "rpcjit")]
+	if r.Ch.Choose(4, "slow-writes") == 1 {
+		// a switch that applies a Write and answers it late (far inside the peer's
+		// patience): the request simply takes longer
+		r.W.P4.Faults.SlowDen, r.W.P4.Faults.SlowBy = 20, []time.Duration{1200 * time.Millisecond, 1600 * time.Millisecond}[r.Ch.Choose(2, "slow-by")]
+	}
 	npeers := 1 + r.Ch.Choose(2, "npeers")
 	for i := 0; i < npeers; i++ {
 		r.AddPeer()
@@ -76,7 +87,21 @@ func scenarioC04(r *Run) {
 	g.DrawAvoid()
 	check := func(ctx, cause string) { r.CheckUP4Image("C04", ctx, cause, o) }
 	runHistory(r, g, histCfg{prop: "C04", maxOps: 3 + r.Ch.Choose(12, "nops"), allowKill: true, checkImage: check, up4: true,
-		afterRestart: func() bool { return r.WaitUP4Ready() }})
+		afterRestart: func() bool { return r.WaitUP4Ready() },
+		beforeRestart: func() {
+			// the operator may restart the agent with another slice id or UE pool:
+			// what the previous incarnation installed must go all the same
+			switch r.Ch.Choose(4, "reconfigure") {
+			case 1:
+				o.SliceID = (o.SliceID + 1 + uint8(r.Ch.Choose(14, "new-slice"))) % 16
+				r.Conf.P4rtcIface.SliceID = o.SliceID
+				r.Fault("restart-with-another-slice-id")
+			case 2:
+				o.UEPool = []string{"10.61.0.0/22", "10.60.0.0/24"}[r.Ch.Choose(2, "new-pool")]
+				r.Conf.CPIface.UEIPPool = o.UEPool
+				r.Fault("restart-with-another-ue-pool")
+			}
+		}})
 	r.CheckNoPanics("C04")
 	if len(r.W.P4.Invalid) > 0 {
 		r.Probe("c16-invalid-writes-seen")
